@@ -214,8 +214,9 @@ class SlotFlow:
     is known to be empty (so nothing is silently discarded/overwritten), with
     callee summaries computed to a fixpoint."""
 
-    def __init__(self, fx, slot, classes):
+    def __init__(self, fx, slot, classes, exceptions=()):
         self.fx, self.slot, self.classes = fx, slot, set(classes)
+        self.exceptions = set(exceptions)
         self.ent = 'field:' + slot
         self.fns = [f for f in fx.repo_functions() if f.cls in self.classes and f.cfg is not None and f.kind != 'lambda']
         self.by_usr = {}
@@ -296,10 +297,10 @@ class SlotFlow:
                     if kind == 'empty':
                         st = EMPTY
                     elif kind == 'clear':
-                        checks[node['i']] = ('clear', node, st)
+                        checks[node['i']] = ('clear', node, EMPTY if (fn.norm, 'clear') in self.exceptions else st)
                         st = EMPTY
                     elif kind == 'set':
-                        checks[node['i']] = ('set', node, st)
+                        checks[node['i']] = ('set', node, EMPTY if (fn.norm, 'set') in self.exceptions else st)
                         st = UNK
                     elif kind.startswith('call:'):
                         u = kind[5:]
